@@ -215,6 +215,32 @@ def check_cookie(ctx, name, value, kw, where, via="set_cookie"):
             ctx.violation(f"cookie|comma-in-name-value-pair|{iface}", case, repr(line))
 
 
+def check_emitted_header(ctx, key, value):
+    """a value the mapping accepts (no CR/LF/NUL) must come out as a clean header line, however long or exotic it is
+    (text above U+00FF cannot be written in Latin-1: refusing it at emission is fine, folding or re-encoding it with line breaks is not)"""
+    case = {"header": key, "value": value if len(value) < 200 else value[:60] + f"...({len(value)} chars)"}
+
+    def factory(ns):
+        r = ns.PlainTextResponse("x")
+        r.headers[key] = value
+        return r
+    for iface, hdrs, exc in emit(factory):
+        if exc is not None:
+            if isinstance(exc, contracts.HeaderHygieneBroken):
+                ctx.violation(f"emitted-header-with-control-char|stored-value|{iface}", case, contracts.FAILS[-1][1])
+            elif isinstance(exc, UnicodeEncodeError) and any(ord(c) > 255 for c in key + value):
+                ctx.count("header-not-emittable(above-U+00FF)")
+            else:
+                ctx.violation(f"stored-header|exception|{type(exc).__name__}|{iface}", case, repr(exc)[:200])
+            continue
+        if hygiene(ctx, iface, hdrs, case):
+            got = [v for k, v in hdrs if k.lower() == key.lower()]
+            if any(ord(c) > 255 for c in value) and iface == "wsgi":
+                continue  # what a WSGI server does with non-Latin-1 native strings is its business
+            if got != [value] and not any(ord(c) > 255 for c in value):
+                ctx.violation(f"stored-header|emitted-value-differs|{iface}", case, repr(got)[:200])
+
+
 def check_redirect(ctx, target, as_url):
     case = {"target": target, "as_url_object": as_url}
 
@@ -348,6 +374,12 @@ def run(ctx):
             check_cookie(ctx, s, "v", kw, "name")
         check_redirect(ctx, rng.choice(["/", "http://h/", "//h/p?", "p#", "https://example.org", "//host", ""]) + s, rng.random() < 0.2)
         ctx.case(("long", s))
+    # --- long / exotic but clean header values, stored and emitted
+    for i in range(ctx.scale(400, 20_000)):
+        unit = rng.choice(["\u4f60\u597d", "\u0100", "\xe9", "a", "=?utf-8?q?x?=", " ", "\t", ";", "\U0001f600"])
+        value = unit * rng.choice([1, 2, 8, 9, 10, 20, 40, 76, 77, 200, 1000]) + rng.choice(["", "z", "\u4e2d"])
+        check_emitted_header(ctx, rng.choice(["X-Long", "x-note", "Content-Disposition", "Link"]), value.strip())
+        ctx.case(("emit", value))
     ctx.monitors["hygiene-contract(icontract)"] = contracts.COUNTS["list_headers.post"]
 
 
